@@ -1,13 +1,13 @@
 #!/usr/bin/env python3
 """T1b: regenerate Gallina models of small pure C functions from /repo's current source.
 
-    python3 tools/c2gallina.py [--out DIR] [--only GenMrb,GenSigDef]      (env JLS_REPO)
+    python3 tools/c2gallina.py [--out DIR] [--only GenMrb,GenCore]      (env JLS_REPO)
 
 Input : the clang JSON AST of the real source file (macros already expanded).
 Output: coq/Gen<Name>.v, one per C file (see FILES), rewritten only when the content
         changes.  The meaning of the emitted helper names is fixed in coq/GenLib.v.
 
-SUPPORTED SUBSET.  Anything else raises Unsupported (exit status 2, message names the
+SUPPORTED SUBSET.  Anything else raises Unsupported (exit status 3, message names the
 construct): nothing approximate is ever emitted.
   types        integer types (unsigned -> N with explicit u8/u16/u32/u64 wrap, signed -> Z
                with `sint` overflow faults), `uint8_t *` = pointer into the one byte array of
@@ -30,12 +30,21 @@ import hashlib, json, os, subprocess, sys
 REPO = os.environ.get("JLS_REPO", "/repo")
 VERIF = os.path.dirname(os.path.dirname(os.path.abspath(__file__)))
 
-# output module -> (source file, entry functions); callees are added automatically
+# output module -> (source file, entry functions / fragments); callees are added automatically
+# a fragment is (generated name, function, first statement starts with, last statement starts with, results)
 FILES = {
     "GenMrb": ("src/msg_ring_buffer.c",
                ["jls_mrb_init", "jls_mrb_clear", "jls_mrb_alloc", "jls_mrb_peek", "jls_mrb_pop"]),
-    "GenSigDef": ("src/core.c",
-                  ["jls_core_signal_def_validate", "jls_core_signal_def_align"]),
+    "GenCore": ("src/core.c",
+                ["jls_core_signal_def_validate", "jls_core_signal_def_align",
+                 ("jls_core_fsr_seek'step_size", "jls_core_fsr_seek", "int64_t step_size = signal_def->samples_per_data;",
+                  "for (int k", ["step_size"])]),
+    "GenRaw": ("src/raw.c", ["payload_size_on_disk"]),
+    "GenTmap": ("src/tmap.c",
+                [("interp_i64'search", "interp_i64", "size_t low = 0;", "if (low >= (self->entries_length - 1))", ["low"])]),
+    "GenFsr": ("src/wr_fsr.c",
+               [("wr_data'omit_shift", "wr_data", "self->write_omit_data = (self->write_omit_data << 1)",
+                 "self->write_omit_data = (self->write_omit_data << 1)", [])]),
 }
 LOG_FUNCS = {"jls_log_printf"}
 PRIM = {  # desugared C type -> (signed, bits)   (x86-64 SysV, the platform of the harness)
@@ -322,6 +331,10 @@ def can_fall(s):
     return True
 
 
+def can_fall_or_break(s):
+    return can_fall(s) or contains({"inner": [s]}, ("BreakStmt",), LOOPS + ("SwitchStmt",))
+
+
 def switch_groups(s):
     """[(labels or None for default, statements)], has_default; no fall-through allowed"""
     body = kids(s)[1]
@@ -356,16 +369,24 @@ class Retry(Exception):
 
 
 class Var:
-    def __init__(self, name, kind, ty):
+    def __init__(self, name, kind, ty, bound=True):
         # kind: val (integer or byte pointer) | structptr (record, in/out) | cstruct (record, read only)
-        #       | scalarptr (pointee value, in/out) | mem (the byte array)
-        self.name, self.kind, self.ty = name, kind, ty
+        #       | scalarptr (pointee value, in/out) | carray (const T *, T wider than a byte: read-only
+        #       list of elements) | mem (the byte array)
+        # bound = False: declared without initialiser and not assigned yet on this path - the Gallina
+        # name does not exist; a read is an unbound-variable error of coqc (never a made-up value)
+        self.name, self.kind, self.ty, self.bound = name, kind, ty, bound
+
+    def as_bound(self):
+        return self if self.bound else Var(self.name, self.kind, self.ty)
 
     def coq(self):
         if self.kind == "mem":
             return "list N"
         if self.kind == "scalarptr":
             return self.ty.to.coq()
+        if self.kind == "carray":
+            return "list %s" % self.ty.to.coq()
         return self.ty.coq()
 
 
@@ -420,6 +441,8 @@ class Fn:
             return Var(name, "val", ty)
         if ty.kind == "ptr" and ty.to.kind == "int" and not ty.to.const:
             return Var(name, "scalarptr", ty)
+        if ty.kind == "ptr" and ty.to.kind == "int" and ty.to.const:
+            return Var(name, "carray", ty)          # read-only array of integers: list N / list Z
         bad(p, "parameter of type %s" % p["type"]["qualType"])
 
     def ident(self, name, node):
@@ -730,6 +753,11 @@ class Fn:
 
     def ex_ArraySubscriptExpr(self, n):
         base, idx = kids(n)
+        v = self.var_of(base)
+        if v and v.kind == "carray":
+            ety = v.ty.to
+            return self.hoist("%s %s %s" % ("loadZ" if ety.signed else "loadN", v.name,
+                                            emb(self.index(self.ex(idx)), "N")), ety)
         t = self.mod.global_array(base, self)
         if t:
             name, ety = t
@@ -849,6 +877,8 @@ class Fn:
                     (v.ty.signed, v.ty.bits) == (pv.ty.to.signed, pv.ty.to.bits)
             elif pv.kind == "scalarptr":
                 ok = v and v.kind == "scalarptr"
+            elif pv.kind == "carray":
+                ok = v and v.kind == "carray" and (v.ty.to.signed, v.ty.to.bits) == (pv.ty.to.signed, pv.ty.to.bits)
             elif pv.kind == "structptr":
                 ok = v and v.kind == "structptr" and v.ty.to.name == pv.ty.to.name
             else:
@@ -861,7 +891,7 @@ class Fn:
             if not ok:
                 bad(a, "argument for pointer parameter %s of %s" % (pv.name, name))
             argt.append(v.name)
-            if pv.kind != "cstruct":
+            if pv.kind in ("structptr", "scalarptr"):
                 outs.append(v.name)
         if len(set(outs)) != len(outs):
             bad(n, "the same object passed for two pointer parameters")
@@ -964,8 +994,8 @@ class Fn:
     def st_CompoundStmt(self, s, k):
         saved = dict(self.env)
 
-        def k2():
-            self.env = dict(saved)
+        def k2():                               # leave the block: its declarations go, assignments stay
+            self.env = {n: self.env.get(n, v) for n, v in saved.items()}
             return k()
         k2.small = getattr(k, "small", False)
         return self.seq(kids(s), 0, k2)
@@ -996,7 +1026,7 @@ class Fn:
                 line = None if self.bind_name(e, name) else "let %s := %s in" % (name, emb(e, "N", False))
                 text.append((self.pre.pop(), line))
             else:
-                self.env[name] = v             # uninitialised: no binding until it is assigned
+                self.env[name] = Var(v.name, v.kind, v.ty, bound=False)   # no binding until it is assigned
         body = k()
         for pre, line in reversed(text):
             self.pre.append(pre)
@@ -1011,6 +1041,7 @@ class Fn:
             v = self.env.get(lhs["referencedDecl"].get("name"))
             if v is None or v.kind not in ("val", "cstruct"):
                 bad(lhs, "assignment to %s" % lhs["referencedDecl"].get("name"))
+            self.env[v.name] = v.as_bound()
             if self.bind_name(e, v.name):
                 return k()
             return "let %s := %s in\n%s" % (v.name, emb(e, "N", False), k())
@@ -1093,19 +1124,21 @@ class Fn:
         jumps = ("ReturnStmt", "BreakStmt", "ContinueStmt", "GotoStmt")
         if both and not any(contains({"inner": [b]}, jumps) for b in branches):
             # both branches only compute: the `if` yields the variables they may change
-            names = [v.name for v in self.modified(branches)]
+            vs = self.modified(branches + ([] if els else [{"kind": "NullStmt"}]))
+            names = [v.name for v in vs]
             n0 = self.uses.get("monadic", 0)
             tt = self.st(then, lambda: "\0")
             self.env = dict(env0)
             te = self.st(els, lambda: "\0") if els else "\0"
             self.env = dict(env0)
             text = "if %s then\n%s\nelse\n%s" % (cc, ind(tt), ind(te))
+            self.mark_bound(vs)
             if self.uses.get("monadic", 0) != n0:
                 text = "bind (%s) (fun %s =>\n%s)" % (text.replace("\0", ok(tuple_text(names))), pat_text(names), k())
             else:
                 text = "let %s :=\n%s in\n%s" % (pat_text(names), ind(text.replace("\0", tuple_text(names))), k())
             return self.close_pre(text)
-        use, wrap = self.join(k, branches, both)
+        use, wrap = self.join(k, branches + ([] if els else [{"kind": "NullStmt"}]), both)
         tt = self.st(then, use)
         self.env = dict(env0)
         te = self.st(els, use) if els else use()
@@ -1113,10 +1146,31 @@ class Fn:
         return self.close_pre(wrap("if %s then\n%s\nelse\n%s" % (cc, ind(tt), ind(te))))
 
     def modified(self, stmts):
+        """variables the branches `stmts` may change and that have a value after every branch"""
         m = set()
         for b in stmts:
             self.mods(b, m)
-        return [v for v in self.env.values() if v.name in m]
+        return [v for v in self.env.values() if v.name in m and
+                (v.bound or all(not can_fall_or_break(b) or self.assigns(b, v.name) for b in stmts))]
+
+    def assigns(self, s, name):
+        """s definitely assigns variable `name` when control leaves it normally (syntactic)"""
+        if s is None:
+            return False
+        k = s.get("kind")
+        if k == "BinaryOperator" and s["opcode"] == "=":
+            l = strip_parens(kids(s)[0])
+            return l.get("kind") == "DeclRefExpr" and l["referencedDecl"].get("name") == name
+        if k == "CompoundStmt":
+            return any(self.assigns(c, name) for c in kids(s))
+        if k == "IfStmt":
+            c = kids(s)
+            return len(c) > 2 and all(not can_fall_or_break(b) or self.assigns(b, name) for b in c[1:3])
+        return False
+
+    def mark_bound(self, vs):
+        for v in vs:
+            self.env[v.name] = v.as_bound()
 
     def join(self, k, stmts, shared):
         """(use, wrap): `use()` is the text that continues with k; when several branches continue
@@ -1128,6 +1182,7 @@ class Fn:
         name = "k'%d" % self.njoin
         vs = self.modified(stmts)
         env0 = dict(self.env)
+        self.mark_bound(vs)
         body = k()
         self.env = env0
         if vs:
@@ -1148,7 +1203,8 @@ class Fn:
         sc = e.ty.scope()
         self.nsw += 1
         sw = E("sw'%d" % self.nsw, "*", e.ty, True)
-        use, wrap = self.join(k, [g for _, grp in groups for g in grp], True)
+        use, wrap = self.join(k, [{"kind": "CompoundStmt", "inner": grp} for _, grp in groups] +
+                              ([] if has_default else [{"kind": "NullStmt"}]), True)
         env0 = dict(self.env)
         self.breaks.append(use)
         default, arms = None, []
@@ -1223,7 +1279,7 @@ class Fn:
             r |= self.refs(p)
         if self.flags["uses_mem"]:
             r.add("mem'")
-        params = [v for v in self.env.values() if v.name in m or v.name in r]
+        params = [v for v in self.env.values() if (v.name in m or v.name in r) and v.bound]
         carried = [v for v in params if v.name in m]
         cnames = [v.name for v in carried]
         ctype = " * ".join(v.coq() for v in carried) or "unit"
@@ -1259,8 +1315,19 @@ class Fn:
             call, pat, ind(k(), 4), "Ok (Ret v')" if self.loops else "Ok v'")
 
     # ---- the whole function
-    def translate(self):
+    def body_text(self):
         body = [c for c in kids(self.decl) if c.get("kind") == "CompoundStmt"][0]
+        if self.ret.kind == "void":
+            end = lambda: self.wrap_ok(tuple_text(self.result_parts(None)))
+        else:
+            end = lambda: self.fault("Fell_off_end")
+        return self.st_CompoundStmt(body, end)
+
+    def doc(self):
+        src = self.decl["type"]["qualType"]
+        return "(* C: %s, type %s *)" % (self.name, src.replace("(*", "( *").replace("*)", "* )"))
+
+    def translate(self):
         while True:
             self.env = {"mem'": Var("mem'", "mem", None)}
             for v in self.params:
@@ -1268,12 +1335,8 @@ class Fn:
             self.pre, self.aux, self.dropped, self.loops, self.breaks = [], [], [], [], []
             self.ntmp = self.njoin = self.nsw = self.nloop = 0
             self.top_call, self.uses = None, {}
-            if self.ret.kind == "void":
-                end = lambda: self.wrap_ok(tuple_text(self.result_parts(None)))
-            else:
-                end = lambda: self.fault("Fell_off_end")
             try:
-                text = self.st_CompoundStmt(body, end)
+                text = self.body_text()
                 break
             except Retry:
                 continue
@@ -1281,13 +1344,89 @@ class Fn:
         ps += ["(%s : %s)" % (v.name, v.coq()) for v in self.params]
         rt = self.result_type()
         rt = "res (%s)" % rt if self.flags["monadic"] else rt
-        src = self.decl["type"]["qualType"]
-        doc = "(* C: %s, type %s *)" % (self.name, src.replace("(*", "( *").replace("*)", "* )"))
+        doc = self.doc()
         if self.dropped:
             doc += "\n(* logging dropped: %s *)" % "; ".join(
                 '"%s"' % d.replace("(*", "( *").replace("*)", "* )") for d in self.dropped)
         out = self.aux + ["%s\nDefinition %s %s : %s :=\n%s." % (doc, self.name, " ".join(ps), rt, ind(text))]
         return "\n\n".join(out)
+
+
+class Fragment(Fn):
+    """A run of consecutive statements of one block of a C function (chosen by the source text its
+    first and last statement start with), as a function of the variables it uses.  Result: the
+    named output variables, then every variable declared outside the run that it may change."""
+    def __init__(self, mod, name, fname, first, last, outputs):
+        self.mod, self.tu, self.name, self.fname = mod, mod.tu, name, fname
+        if fname not in mod.tu.funcs:
+            raise Unsupported("fragment %s: no function %s" % (name, fname))
+        self.decl = mod.tu.funcs[fname]
+        self.first, self.last, self.outputs = first, last, outputs
+        self.flags = {"monadic": False, "uses_mem": False, "writes_mem": False, "fuel": False}
+        self.ret = Ty("void")
+        self.stmts = self.locate()
+        if any(x.get("kind") in ("ReturnStmt", "GotoStmt", "LabelStmt") for st in self.stmts for x in walk(st)):
+            raise Unsupported("fragment %s contains return / goto" % name)
+        for st in self.stmts:
+            if contains({"inner": [st]}, ("BreakStmt", "ContinueStmt"), LOOPS + ("SwitchStmt",)):
+                raise Unsupported("fragment %s: break / continue leaving the fragment" % name)
+        decls = {}
+        for x in walk(self.decl):
+            if x.get("kind") in ("ParmVarDecl", "VarDecl") and "name" in x:
+                decls.setdefault(x["name"], []).append(x)
+        inner = {x["name"] for st in self.stmts for x in walk(st) if x.get("kind") == "VarDecl"}
+        free = set()
+        for st in self.stmts:
+            free |= {r for r in self.refs(st) if r not in inner and r in decls}
+        self.params = []
+        for n, ds in decls.items():                 # declaration order
+            if n in free:
+                if len(ds) != 1:
+                    raise Unsupported("fragment %s: %s is declared more than once in %s" % (name, n, fname))
+                self.params.append(self.classify(ds[0]))
+        self.outs = []
+
+    def src_offset(self, n, end=False):
+        r = n.get("range", {}).get("end" if end else "begin", {})
+        r = r.get("expansionLoc", r)
+        return r.get("offset", -1) + (r.get("tokLen", 0) if end else 0)
+
+    def locate(self):
+        text = self.mod.source_text()
+        for blk in walk(self.decl):
+            if blk.get("kind") != "CompoundStmt":
+                continue
+            ks = kids(blk)
+            starts = [text[self.src_offset(c):].lstrip().startswith(self.first) for c in ks]
+            if any(starts):
+                i = starts.index(True)
+                for j in range(i, len(ks)):
+                    if text[self.src_offset(ks[j]):].lstrip().startswith(self.last):
+                        return ks[i:j + 1]
+                raise Unsupported("fragment %s: no statement starting with %r after the first" % (self.name, self.last))
+        raise Unsupported("fragment %s: no statement of %s starts with %r" % (self.name, self.fname, self.first))
+
+    def body_text(self):
+        m = self.mods({"inner": self.stmts})
+        changed = [v.name for v in self.params if v.name in m and v.name not in self.outputs]
+
+        def end():
+            names = list(self.outputs) + changed
+            for n in names:
+                if n not in self.env:
+                    raise Unsupported("fragment %s: output %s is not in scope at its end" % (self.name, n))
+            self.out_vars = [self.env[n] for n in names]
+            return self.wrap_ok(tuple_text(names + (["mem'"] if self.flags["writes_mem"] else [])))
+        return self.seq(self.stmts, 0, end)
+
+    def result_type(self):
+        parts = [v.coq() for v in self.out_vars] + (["list N"] if self.flags["writes_mem"] else [])
+        return " * ".join(parts) if parts else "unit"
+
+    def doc(self):
+        q = lambda t: t.replace("(*", "( *").replace("*)", "* )")
+        return "(* C: fragment of %s: the statements from `%s` to `%s`;\n   result: %s *)" % (
+            self.fname, q(self.first), q(self.last), ", ".join(v.name for v in self.out_vars))
 
 
 # ----------------------------------------------------------------------------- one output file
@@ -1297,6 +1436,19 @@ class Module:
         self.tu = TU(os.path.join(REPO, src))
         self.fns, self.order, self.busy = {}, [], set()
         self.records, self.globals_used, self.global_text = [], [], {}
+
+    def source_text(self):
+        with open(os.path.join(REPO, self.src), "rb") as f:       # clang offsets are byte offsets
+            return f.read().decode("latin-1")
+
+    def fragment(self, name, fname, first, last, outputs):
+        f = Fragment(self, name, fname, first, last, outputs)
+        try:
+            f.text = f.translate()
+        except Unsupported as e:
+            raise Unsupported("in fragment %s: %s" % (name, e))
+        self.fns[name] = f
+        self.order.append(name)
 
     def fn(self, name, node):
         if name in self.fns:
@@ -1423,7 +1575,10 @@ class Module:
 
     def emit(self):
         for e in self.entries:
-            self.fn(e, {"kind": "entry %s" % e})
+            if isinstance(e, tuple):
+                self.fragment(*e)
+            else:
+                self.fn(e, {"kind": "entry %s" % e})
         out = ["(* GENERATED by tools/c2gallina.py from %s - do not edit.\n"
                "   One Gallina definition per C function, statement by statement; the meaning of the helper\n"
                "   names (res, bind, u32, sint, ptr, load8, store8 ...) is fixed in GenLib.v.\n"
@@ -1459,8 +1614,10 @@ def main(argv):
         try:
             text = Module(modname, src, entries).emit()
         except Unsupported as e:
+            # the previous generated file (if any) is left as it is; exit status 3 = "the translator no
+            # longer fits the source" (the tie is broken), the same convention as gen_constants.py
             sys.stderr.write("c2gallina: %s (%s): UNSUPPORTED: %s\n" % (modname, src, e))
-            status = 2
+            status = 3
             continue
         path = os.path.join(outdir, modname + ".v")
         old = open(path).read() if os.path.exists(path) else None
